@@ -48,6 +48,58 @@ PREFIX_BLOCK = (
 B32 = "src/allmydata/util/base32.py"
 B32_HELPER = "    d = {}\n    return b''.join(_get_trailing_chars_without_lsbs(N, d=d))\n"
 
+# ---- the refactor of seeded change C15-I: the str/bytes step and the alleged-prefix handling of from_string,
+#      is_literal_file_uri and has_uri_prefix factored into two module-level helpers (edits applied together)
+FS_DEF = "def from_string(u, deep_immutable=False, name=u\"<unknown name>\"):\n"
+TO_BYTES_HELPER = (
+    "def _to_bytes_or_none(s):\n    if isinstance(s, str):\n        s = s.encode(\"utf-8\")\n"
+    "    if not isinstance(s, bytes):\n        return None\n    return s\n\n")
+SPLIT_HEAD = ("def _split_alleged_prefix(s):\n    alleged_immutable = s.startswith(ALLEGED_IMMUTABLE_PREFIX)\n"
+              "    alleged_readonly = s.startswith(ALLEGED_READONLY_PREFIX)\n")
+SPLIT_TAIL = "    return rest, alleged_immutable, alleged_readonly\n\n"
+SPLIT_SLIP = SPLIT_HEAD + ("    rest = s.removeprefix(ALLEGED_IMMUTABLE_PREFIX).removeprefix(ALLEGED_READONLY_PREFIX)\n") + SPLIT_TAIL
+SPLIT_FAITHFUL = SPLIT_HEAD + (
+    "    if alleged_immutable:\n        rest = s.removeprefix(ALLEGED_IMMUTABLE_PREFIX)\n"
+    "    else:\n        rest = s.removeprefix(ALLEGED_READONLY_PREFIX)\n") + SPLIT_TAIL
+SPLIT_LOOP_NO_BREAK = SPLIT_HEAD + (
+    "    rest = s\n    for alleged in (ALLEGED_IMMUTABLE_PREFIX, ALLEGED_READONLY_PREFIX):\n"
+    "        if rest.startswith(alleged):\n            rest = rest[len(alleged):]\n") + SPLIT_TAIL
+SPLIT_LOOP_BREAK = SPLIT_HEAD + (
+    "    rest = s\n    for alleged in (ALLEGED_IMMUTABLE_PREFIX, ALLEGED_READONLY_PREFIX):\n"
+    "        if rest.startswith(alleged):\n            rest = rest[len(alleged):]\n            break\n") + SPLIT_TAIL
+FS_TYPE_OLD = ("    if isinstance(u, str):\n        u = u.encode(\"utf-8\")\n    if not isinstance(u, bytes):\n"
+               "        raise TypeError(\"URI must be unicode string or bytes: %r\" % (u,))\n")
+FS_TYPE_NEW = ("    given, u = u, _to_bytes_or_none(u)\n    if u is None:\n"
+               "        raise TypeError(\"URI must be unicode string or bytes: %r\" % (given,))\n")
+FS_PREFIX_OLD = "    s = u\n    can_be_mutable = can_be_writeable = not deep_immutable\n" + PREFIX_BLOCK
+FS_PREFIX_NEW = ("    s, alleged_immutable, alleged_readonly = _split_alleged_prefix(u)\n"
+                 "    can_be_mutable = not (deep_immutable or alleged_immutable)\n"
+                 "    can_be_writeable = can_be_mutable and not alleged_readonly\n")
+PRED_GUARD = "    if isinstance(s, str):\n        s = s.encode(\"utf-8\")\n    if not isinstance(s, bytes):\n        return False\n"
+LIT_PRED_OLD = "def is_literal_file_uri(s):\n" + PRED_GUARD + (
+    "    return (s.startswith(b'URI:LIT:') or\n            s.startswith(ALLEGED_READONLY_PREFIX + b'URI:LIT:') or\n"
+    "            s.startswith(ALLEGED_IMMUTABLE_PREFIX + b'URI:LIT:'))\n")
+URI_PRED_OLD = "def has_uri_prefix(s):\n" + PRED_GUARD + (
+    "    return (s.startswith(b\"URI:\") or\n            s.startswith(ALLEGED_READONLY_PREFIX + b'URI:') or\n"
+    "            s.startswith(ALLEGED_IMMUTABLE_PREFIX + b'URI:'))\n")
+PRED_GUARD_NEW = "    s = _to_bytes_or_none(s)\n    if s is None:\n        return False\n"
+LIT_PRED_NEW = "def is_literal_file_uri(s):\n" + PRED_GUARD_NEW + "    return _split_alleged_prefix(s)[0].startswith(b'URI:LIT:')\n"
+URI_PRED_NEW = "def has_uri_prefix(s):\n" + PRED_GUARD_NEW + "    return _split_alleged_prefix(s)[0].startswith(b'URI:')\n"
+
+
+def _helpers(split):
+    return (U, FS_DEF, TO_BYTES_HELPER + split + FS_DEF)
+
+
+FS_EDITS = [(U, FS_TYPE_OLD, FS_TYPE_NEW), (U, FS_PREFIX_OLD, FS_PREFIX_NEW)]
+PRED_EDITS = [(U, LIT_PRED_OLD, LIT_PRED_NEW), (U, URI_PRED_OLD, URI_PRED_NEW)]
+
+
+def _refactor(mid, split, expect, edits, note=""):
+    (p, o, n) = _helpers(split)
+    return M(mid, p, o, n, expect, edits=edits, note=note)
+
+
 MUTANTS = [
     # ---- C15.1 start anchor / whole parameter
     M("lit-no-caret", U, "STRING_RE=re.compile(b'^URI:LIT:'+", "STRING_RE=re.compile(b'URI:LIT:'+", "C15.1"),
@@ -301,6 +353,31 @@ MUTANTS = [
       "def could_be_base32_encoded(s, tr=bytes.translate,", None),
     M("vanish-validator-table", B32, "    return s8[len(s)%8][s[-1]] and not tr(s, identitytranstable, chars)",
       "    return s[-1] in chars and not tr(s, identitytranstable, chars)", "ANALYSIS-ERROR"),
+    # ---- C15.11 / C15.12 through helpers (seeded change C15-I): from_string's prefix handling moved into
+    #      _split_alleged_prefix, whose result is unpacked; the abstract execution follows the helper call
+    _refactor("helper-removeprefix-chained", SPLIT_SLIP, "C15.11", FS_EDITS + PRED_EDITS, note="seeded change C15-I as delivered"),
+    _refactor("helper-removeprefix-chained-from-string-only", SPLIT_SLIP, "C15.11", FS_EDITS),
+    _refactor("helper-prefix-loop-without-break", SPLIT_LOOP_NO_BREAK, "C15.11", FS_EDITS),
+    _refactor("benign-helper-one-removeprefix", SPLIT_FAITHFUL, None, FS_EDITS + PRED_EDITS,
+              note="the refactor of C15-I done faithfully"),
+    _refactor("benign-helper-prefix-loop-break", SPLIT_LOOP_BREAK, None, FS_EDITS + PRED_EDITS),
+    M("benign-type-step-in-helper", U, FS_DEF, TO_BYTES_HELPER + FS_DEF, None, edits=[(U, FS_TYPE_OLD, FS_TYPE_NEW)]),
+    # ---- C15.15 the textual predicates admit exactly one optional alleged prefix
+    _refactor("predicates-helper-removeprefix-chained", SPLIT_SLIP, "C15.15", PRED_EDITS,
+              note="the predicate half of seeded change C15-I"),
+    M("has-uri-prefix-strip-loop", U, URI_PRED_OLD, "def has_uri_prefix(s):\n" + PRED_GUARD +
+      "    for alleged in (ALLEGED_READONLY_PREFIX, ALLEGED_IMMUTABLE_PREFIX):\n        if s.startswith(alleged):\n"
+      "            s = s[len(alleged):]\n    return s.startswith(b\"URI:\")\n", "C15.15"),
+    M("is-literal-imm-alternative-lost", U, LIT_PRED_OLD, "def is_literal_file_uri(s):\n" + PRED_GUARD +
+      "    return s.startswith((b'URI:LIT:', ALLEGED_READONLY_PREFIX + b'URI:LIT:'))\n", "C15.15"),
+    M("has-uri-prefix-lstripped", U, URI_PRED_OLD, URI_PRED_OLD.replace("    return (s.startswith(b\"URI:\")", "    s = s.lstrip()\n    return (s.startswith(b\"URI:\")"), "C15.15"),
+    _refactor("benign-predicates-helper-one-removeprefix", SPLIT_FAITHFUL, None, PRED_EDITS),
+    M("benign-has-uri-prefix-tuple", U, URI_PRED_OLD, "def has_uri_prefix(s):\n" + PRED_GUARD +
+      "    return s.startswith((b\"URI:\", ALLEGED_READONLY_PREFIX + b'URI:', ALLEGED_IMMUTABLE_PREFIX + b'URI:'))\n", None),
+    M("benign-is-literal-early-returns", U, LIT_PRED_OLD, "def is_literal_file_uri(s):\n" + PRED_GUARD +
+      "    for alleged in (b'', ALLEGED_READONLY_PREFIX, ALLEGED_IMMUTABLE_PREFIX):\n"
+      "        if s.startswith(alleged + b'URI:LIT:'):\n            return True\n    return False\n", None),
+    M("vanish-has-uri-prefix", U, "def has_uri_prefix(s):", "def has_uri_prefixX(s):", "ANALYSIS-ERROR"),
     # ---- vanished anchor
     M("vanish-from-string", U, "def from_string(u, deep_immutable=False", "def from_stringX(u, deep_immutable=False", "ANALYSIS-ERROR"),
 ]
